@@ -6,6 +6,7 @@ import GlonaxModel.Driver.Drivers
 import GlonaxModel.Driver.Director
 import GlonaxModel.Driver.Input
 import GlonaxModel.Driver.Bus
+import GlonaxModel.Driver.Authority
 open Glonax.Driver
 
 def dispatch (prop : String) (inp out : List String) : Verdict :=
@@ -19,10 +20,13 @@ def dispatch (prop : String) (inp out : List String) : Verdict :=
   | "C04" => SessDrv.check "C04" inp out
   | "C05" => SessDrv.check "C05" inp out
   | "C14" => SessDrv.check "C14" inp out
-  | "C06" => DrvDrv.check "C06" inp out
+  | "C06" => if inp.head? == some "auth" then AuthDrv.check "C06" inp out else DrvDrv.check "C06" inp out
   | "C09" => DirDrv.check inp out
   | "C18" => InpDrv.check inp out
   | "C15" => BusDrv.check inp out
+  | "C10" => AuthDrv.check "C10" inp out
+  | "C20" => AuthDrv.check "C20" inp out
+  | "C16" => AuthDrv.check "C16" inp out
   | "C08" => DrvDrv.check "C08" inp out
   | "C11" => DrvDrv.check "C11" inp out
   | "C12" => DrvDrv.check "C12" inp out
